@@ -202,7 +202,7 @@ func clipS(s string) string {
 	return s
 }
 
-func textScenario() *explore.Scenario {
+func textScenario(thorough bool) *explore.Scenario {
 	return &explore.Scenario{
 		Name:   "text: strings over {00,'a','\\n','$',ff}^<=4 + size classes",
 		Shards: 8,
@@ -213,7 +213,7 @@ func textScenario() *explore.Scenario {
 				var gen func(cur []byte)
 				gen = func(cur []byte) {
 					strs = append(strs, append([]byte{}, cur...))
-					if len(cur) == 4 {
+					if len(cur) == 4 && !thorough || len(cur) == 5 {
 						return
 					}
 					for _, a := range alpha {
@@ -369,7 +369,7 @@ func jsonDocs() []string {
 	return docs
 }
 
-func jsonScenario() *explore.Scenario {
+func jsonScenario(thorough bool) *explore.Scenario {
 	return &explore.Scenario{
 		Name:   "json: object trees x flags x carriers; every proper prefix; non-object top levels",
 		Shards: 8,
@@ -395,8 +395,8 @@ func jsonScenario() *explore.Scenario {
 						for _, dis := range []bool{false, true} {
 							for ci, car := range inCarriers {
 								try(jcase{Doc: d, UseNumber: un, Disallow: dis, Carrier: car, Kind: "valid"})
-								if ci != di%len(inCarriers) {
-									continue
+								if ci != di%len(inCarriers) && !thorough {
+									continue // (thorough: prefixes and trailing garbage through every carrier)
 								}
 								// every proper prefix is a truncated frame
 								for cut := 0; cut < len(d); cut++ {
@@ -438,8 +438,10 @@ func jsonScenario() *explore.Scenario {
 func main() {
 	explore.Main(explore.Spec{
 		Property: "C16",
-		Rule:     "text: every string of length <= 4 over {0x00,'a','\\n','\\r','$',0xff} plus sizes across the pool classes (1023..65537, with NUL and invalid UTF-8 bytes), (a) handed to the text codec in each of 12 carriers (incl. readers whose leading tag bytes were already consumed) with the upstream buffer overwritten afterwards (the retained string must not change), (b) written and read back through text alone / delimiter+text / length-field+text / varint+text with whole-buffer and 1-byte reads. JSON: object trees of depth <= 2 over ascii / unicode / escaped keys and 14 leaves (integers beyond 2^53, 1e308, 0.1, strings, bool, null, arrays, nested objects, duplicate keys) x useNumber x disallowUnknown x 7 carriers compared with encoding/json's own decode and written back; every proper prefix of every document, trailing garbage, and 21 non-object / malformed top levels must raise an exception and deliver nothing. distinct = distinct cases",
+		Rule:     "text: every string of length <= 4 (thorough 5) over {0x00,'a','\\n','\\r','$',0xff} plus sizes across the pool classes (1023..65537, with NUL and invalid UTF-8 bytes), (a) handed to the text codec in each of 12 carriers (incl. readers whose leading tag bytes were already consumed) with the upstream buffer overwritten afterwards (the retained string must not change), (b) written and read back through text alone / delimiter+text / length-field+text / varint+text with whole-buffer and 1-byte reads. JSON: object trees of depth <= 2 over ascii / unicode / escaped keys and 14 leaves (integers beyond 2^53, 1e308, 0.1, strings, bool, null, arrays, nested objects, duplicate keys) x useNumber x disallowUnknown x 7 carriers compared with encoding/json's own decode and written back; every proper prefix of every document, trailing garbage, and 21 non-object / malformed top levels must raise an exception and deliver nothing. distinct = distinct cases",
 		Assume:   []string{"a frame that begins with one complete object followed by other bytes may be delivered as that object (the statement only requires the frame to begin with a complete object)", "encoding/json is the reference"},
-		Build:    func(tier string) []*explore.Scenario { return []*explore.Scenario{textScenario(), jsonScenario()} },
+		Build: func(tier string) []*explore.Scenario {
+			return []*explore.Scenario{textScenario(tier == "thorough"), jsonScenario(tier == "thorough")}
+		},
 	})
 }
